@@ -1,8 +1,1114 @@
-//! Engine `pool` (stub).
+//! Engine `pool` (C12): random alloc/release interleavings on the string pool against an abstract
+//! model per size class (live set, LIFO free stack, virgin boundary), through the feature-gated
+//! wrappers `naijascript::arena::pool_verif::{VPool, VPoolSet}`.
+//!
+//! Two workloads: the runtime's real 20-class pool set, and small pools (2-64 slots) in which
+//! exhaustion and refill happen every few operations.
+
+use std::collections::BTreeMap;
+use std::ptr::NonNull;
+
+use naijascript::arena::pool_verif::{self, PoolState, VPool, VPoolSet};
+use naijascript::arena::{Arena, ArenaString};
+use naijascript::verif;
+use serde_json::{Value as J, json};
+
+use super::arena::model::{PERIOD, fill, gen_text, table, verify};
 use crate::Ctx;
+use crate::util::{self, Rng};
+
+const SET_ARENA_CAP: usize = 64 << 20;
+const SMALL_ARENA_CAP: usize = 1 << 20;
+const FALLBACK_BUDGET: usize = 24 << 20;
+
+// ---------------------------------------------------------------------------
+// Specification of the size classes (written from the documentation in pool.rs, independent of
+// the implementation's tables)
+// ---------------------------------------------------------------------------
+
+fn spec_class(n: u32) -> Option<usize> {
+    match n {
+        0 => Some(0),
+        1..=128 => Some((n as usize).div_ceil(8) - 1),
+        129..=256 => Some(16 + (n as usize - 129) / 32),
+        _ => None,
+    }
+}
+
+fn spec_slot_size(class: usize) -> u32 {
+    if class < 16 { (class as u32 + 1) * 8 } else { 128 + (class as u32 - 15) * 32 }
+}
+
+fn spec_slot_count(class: usize) -> u32 {
+    match class {
+        0..=3 => 16_384,
+        4..=7 => 4_096,
+        8..=15 => 1_024,
+        _ => 512,
+    }
+}
+
+// ---------------------------------------------------------------------------
+// Operations
+// ---------------------------------------------------------------------------
+
+#[derive(Clone, Debug)]
+pub enum Op {
+    /// `p` = pool index (small pools); ignored for the pool set, where the size selects the class.
+    Alloc { p: usize, size: u32 },
+    AllocStr { key: u64, n: u32 },
+    Free { h: u32 },
+    BurstAlloc { p: usize, size: u32, n: u32 },
+    /// Releases up to `n` live buffers of pool/class `p` (-1 = any) in an order drawn from `key`.
+    BurstFree { p: i32, n: u32, key: u64 },
+    Probe { key: u64 },
+    /// An unrelated allocation from the backing arena.
+    ArenaAlloc { size: u32 },
+}
+
+impl Op {
+    fn to_json(&self) -> J {
+        match *self {
+            Op::Alloc { p, size } => json!({"op": "alloc", "p": p, "size": size}),
+            Op::AllocStr { key, n } => json!({"op": "alloc_str", "key": key, "n": n}),
+            Op::Free { h } => json!({"op": "dealloc", "h": h}),
+            Op::BurstAlloc { p, size, n } => json!({"op": "burst_alloc", "p": p, "size": size, "n": n}),
+            Op::BurstFree { p, n, key } => json!({"op": "burst_dealloc", "p": p, "n": n, "key": key}),
+            Op::Probe { key } => json!({"op": "probe_contains", "key": key}),
+            Op::ArenaAlloc { size } => json!({"op": "arena_alloc", "size": size}),
+        }
+    }
+
+    fn from_json(j: &J) -> Option<Op> {
+        let u = |k: &str| j.get(k).and_then(J::as_u64);
+        Some(match j.get("op")?.as_str()? {
+            "alloc" => Op::Alloc { p: u("p")? as usize, size: u("size")? as u32 },
+            "alloc_str" => Op::AllocStr { key: u("key")?, n: u("n")? as u32 },
+            "dealloc" => Op::Free { h: u("h")? as u32 },
+            "burst_alloc" => Op::BurstAlloc { p: u("p")? as usize, size: u("size")? as u32, n: u("n")? as u32 },
+            "burst_dealloc" => Op::BurstFree { p: j.get("p")?.as_i64()? as i32, n: u("n")? as u32, key: u("key")? },
+            "probe_contains" => Op::Probe { key: u("key")? },
+            "arena_alloc" => Op::ArenaAlloc { size: u("size")? as u32 },
+            _ => return None,
+        })
+    }
+}
+
+#[derive(Clone, Debug)]
+pub enum Mode {
+    Set,
+    Small(Vec<(u32, u32)>),
+}
+
+impl Mode {
+    fn to_json(&self) -> J {
+        match self {
+            Mode::Set => json!("set"),
+            Mode::Small(v) => json!(v.iter().map(|(s, c)| json!([s, c])).collect::<Vec<_>>()),
+        }
+    }
+
+    fn from_json(j: &J) -> Option<Mode> {
+        if j.as_str() == Some("set") {
+            return Some(Mode::Set);
+        }
+        let a = j.as_array()?;
+        let mut v = Vec::new();
+        for e in a {
+            v.push((e.get(0)?.as_u64()? as u32, e.get(1)?.as_u64()? as u32));
+        }
+        Some(Mode::Small(v))
+    }
+}
+
+// ---------------------------------------------------------------------------
+// Model
+// ---------------------------------------------------------------------------
+
+#[derive(Debug)]
+struct Fail {
+    sig: String,
+    detail: J,
+}
+
+fn fail(sig: &str, detail: J) -> Fail {
+    Fail { sig: sig.to_string(), detail }
+}
+
+struct PoolModel {
+    base: usize,
+    ss: u32,
+    count: u32,
+    /// slot index -> handle
+    live: BTreeMap<u32, u32>,
+    free: Vec<u32>,
+    bump: u32,
+    /// handle of the most recent allocation that is still live (LIFO detection)
+    alloc_order: Vec<u32>,
+    exhausted: bool,
+    released_after_exhaustion: bool,
+    refilled: bool,
+}
+
+impl PoolModel {
+    fn total(&self) -> usize {
+        self.ss as usize * self.count as usize
+    }
+
+    fn predict(&self) -> Option<u32> {
+        if let Some(&i) = self.free.last() {
+            Some(i)
+        } else if self.bump < self.count {
+            Some(self.bump)
+        } else {
+            None
+        }
+    }
+
+    fn contains(&self, addr: usize) -> bool {
+        addr >= self.base && addr - self.base < self.total()
+    }
+}
+
+struct Buf {
+    h: u32,
+    addr: usize,
+    /// bytes owned (slot size for pooled buffers, the returned length for fallback buffers)
+    len: usize,
+    /// the size that was passed to alloc (must be passed to dealloc again)
+    size: u32,
+    /// pool / class index; None = arena fallback
+    pool: Option<usize>,
+    slot: u32,
+    tab: [u8; PERIOD],
+}
+
+/// Set of live handles with O(1) insert / remove / pick (order is a deterministic function of
+/// the history).
+#[derive(Default)]
+struct LiveSet {
+    v: Vec<u32>,
+    pos: BTreeMap<u32, usize>,
+}
+
+impl LiveSet {
+    fn insert(&mut self, h: u32) {
+        self.pos.insert(h, self.v.len());
+        self.v.push(h);
+    }
+
+    fn remove(&mut self, h: u32) {
+        if let Some(i) = self.pos.remove(&h) {
+            self.v.swap_remove(i);
+            if i < self.v.len() {
+                self.pos.insert(self.v[i], i);
+            }
+        }
+    }
+}
+
+enum Pools {
+    Set(VPoolSet<'static>),
+    Small(Vec<VPool<'static>>),
+}
+
+#[derive(Default, Clone, Copy)]
+struct Flags {
+    exhausted: bool,
+    refilled: bool,
+    non_lifo: bool,
+}
+
+struct World {
+    pools: Option<Pools>,
+    arena: Option<Box<Arena>>,
+    models: Vec<PoolModel>,
+    bufs: BTreeMap<u32, Buf>,
+    /// start address -> handle, for the overlap check
+    by_addr: BTreeMap<usize, u32>,
+    live_all: LiveSet,
+    live_pool: Vec<LiveSet>,
+    /// fallback buffers that were "released": their memory must never come back
+    dead_fallback: Vec<(usize, usize)>,
+    arena_blocks: Vec<(usize, usize)>,
+    fallback_bytes: usize,
+    next_h: u32,
+    opno: usize,
+    inner: usize,
+    last_op: &'static str,
+    stats: BTreeMap<&'static str, u64>,
+    flags: Flags,
+    heap_probe: Box<[u8; 64]>,
+}
+
+impl World {
+    fn new(mode: &Mode) -> Result<Self, Fail> {
+        let cap = if matches!(mode, Mode::Set) { SET_ARENA_CAP } else { SMALL_ARENA_CAP };
+        let arena = Box::new(Arena::new(cap).map_err(|e| fail("pool|arena-new-failed", json!({"errno": e})))?);
+        let aref: &'static Arena = unsafe { &*std::ptr::from_ref::<Arena>(&*arena) };
+        // something in front of the first block, so that "one byte before block 0" is arena memory
+        let pre = aref.alloc_uninit_slice::<u8>(24);
+        let mut arena_blocks = vec![(pre.as_ptr() as usize, 24usize)];
+        let mut models = Vec::new();
+        let pools = match mode {
+            Mode::Set => {
+                let set = VPoolSet::new(aref);
+                for c in 0..pool_verif::CLASSES {
+                    let st = set.class_state(c);
+                    models.push(Self::model_from_state(st));
+                }
+                Pools::Set(set)
+            }
+            Mode::Small(geo) => {
+                let mut v = Vec::new();
+                for &(ss, count) in geo {
+                    let p = VPool::new(aref, ss, count);
+                    models.push(Self::model_from_state(p.state()));
+                    v.push(p);
+                    // unrelated arena memory between the pools
+                    let gap = aref.alloc_uninit_slice::<u8>(40);
+                    arena_blocks.push((gap.as_ptr() as usize, 40));
+                }
+                Pools::Small(v)
+            }
+        };
+        let w = Self {
+            pools: Some(pools),
+            arena: Some(arena),
+            models,
+            bufs: BTreeMap::new(),
+            by_addr: BTreeMap::new(),
+            live_all: LiveSet::default(),
+            live_pool: Vec::new(),
+            dead_fallback: Vec::new(),
+            arena_blocks,
+            fallback_bytes: 0,
+            next_h: 1,
+            opno: 0,
+            inner: 0,
+            last_op: "new",
+            stats: BTreeMap::new(),
+            flags: Flags::default(),
+            heap_probe: Box::new([0; 64]),
+        };
+        let mut w = w;
+        w.live_pool = (0..w.models.len()).map(|_| LiveSet::default()).collect();
+        w.check_geometry(mode)?;
+        Ok(w)
+    }
+
+    fn model_from_state(st: PoolState) -> PoolModel {
+        PoolModel {
+            base: st.5,
+            ss: st.3,
+            count: st.4,
+            live: BTreeMap::new(),
+            free: Vec::new(),
+            bump: 0,
+            alloc_order: Vec::new(),
+            exhausted: false,
+            released_after_exhaustion: false,
+            refilled: false,
+        }
+    }
+
+    fn arena(&self) -> &Arena {
+        self.arena.as_ref().expect("arena")
+    }
+
+    fn stat(&mut self, k: &'static str) {
+        *self.stats.entry(k).or_insert(0) += 1;
+    }
+
+    fn ctx(&self) -> J {
+        json!({"op_number": self.opno, "inner_step": self.inner, "operation": self.last_op, "live_buffers": self.bufs.len()})
+    }
+
+    /// Fresh pools: geometry as requested / as documented, blocks inside the arena, 8-aligned,
+    /// pairwise disjoint, all counters zero.
+    fn check_geometry(&self, mode: &Mode) -> Result<(), Fail> {
+        let (abase, acap, _, aoff) = self.arena().verif_state();
+        for (i, m) in self.models.iter().enumerate() {
+            let (want_ss, want_count) = match mode {
+                Mode::Set => (spec_slot_size(i), spec_slot_count(i)),
+                Mode::Small(g) => g[i],
+            };
+            let st = self.state(i);
+            let d = json!({"pool": i, "state": [st.0, st.1, st.2, st.3, st.4], "expected_slot_size": want_ss, "expected_slot_count": want_count});
+            if m.ss != want_ss || m.count != want_count {
+                return Err(fail("pool|geometry", d));
+            }
+            if st.0 != 0 || st.1 != 0 || st.2 != 0 {
+                return Err(fail("pool|fresh-not-empty", d));
+            }
+            if m.base % 8 != 0 || m.base < abase || m.base + m.total() > abase + aoff || aoff > acap {
+                return Err(fail("pool|block-outside-arena", d));
+            }
+            for (j, o) in self.models.iter().enumerate() {
+                if j != i && m.base < o.base + o.total() && o.base < m.base + m.total() {
+                    return Err(fail("pool|blocks-overlap", d));
+                }
+            }
+        }
+        if matches!(mode, Mode::Set) {
+            if pool_verif::slot_sizes().iter().enumerate().any(|(i, s)| *s != spec_slot_size(i)) || pool_verif::slot_counts().iter().enumerate().any(|(i, s)| *s != spec_slot_count(i)) {
+                return Err(fail("pool|geometry", json!({"tables": "SLOT_SIZES / SLOT_COUNTS differ from the documented geometry"})));
+            }
+            for n in 0..=600u32 {
+                let got = pool_verif::size_class(n).map(|c| c as usize);
+                if got != spec_class(n) {
+                    return Err(fail("pool|size-class", json!({"size": n, "class": got, "expected": spec_class(n)})));
+                }
+            }
+            for n in [1000u32, 65535, 65536, 70000, 1 << 20, u32::MAX] {
+                if pool_verif::size_class(n).is_some() {
+                    return Err(fail("pool|size-class", json!({"size": n, "class": pool_verif::size_class(n)})));
+                }
+            }
+        }
+        Ok(())
+    }
+
+    fn state(&self, i: usize) -> PoolState {
+        match self.pools.as_ref().expect("pools") {
+            Pools::Set(s) => s.class_state(i),
+            Pools::Small(v) => v[i].state(),
+        }
+    }
+
+    fn real_contains(&self, addr: usize) -> bool {
+        match self.pools.as_ref().expect("pools") {
+            Pools::Set(s) => s.contains(addr as *const u8),
+            Pools::Small(v) => v.iter().any(|p| p.contains(addr as *const u8)),
+        }
+    }
+
+    fn is_set(&self) -> bool {
+        matches!(self.pools, Some(Pools::Set(_)))
+    }
+
+    // -----------------------------------------------------------------------
+
+    /// Everything that must hold after each single alloc / dealloc.
+    fn check_all(&self) -> Result<(), Fail> {
+        for (i, m) in self.models.iter().enumerate() {
+            let st = self.state(i);
+            let d = || {
+                let mut c = self.ctx();
+                c["pool"] = json!(i);
+                c["counters"] = json!({"live": st.0, "free": st.1, "bump": st.2, "slot_size": st.3, "slot_count": st.4});
+                c["model"] = json!({"live": m.live.len(), "free": m.free.len(), "bump": m.bump});
+                c
+            };
+            if st.3 != m.ss || st.4 != m.count || st.5 != m.base {
+                return Err(fail("pool|geometry-changed", d()));
+            }
+            if u64::from(st.0) + u64::from(st.1) + u64::from(st.4) != u64::from(st.4) + u64::from(st.2) || st.2 > st.4 {
+                return Err(fail("pool|conservation", d()));
+            }
+            if st.0 as usize != m.live.len() || st.1 as usize != m.free.len() || st.2 != m.bump {
+                return Err(fail("pool|counter-mismatch", d()));
+            }
+        }
+        for b in self.bufs.values() {
+            if let Some((at, want, got)) = unsafe { verify(b.addr as *const u8, 0, b.len, &b.tab) } {
+                let mut c = self.ctx();
+                c["buffer"] = json!({"handle": b.h, "pool": b.pool, "slot": b.slot, "len": b.len});
+                c["first_bad_byte"] = json!({"index": at, "expected": want, "found": got});
+                return Err(fail("pool|buffer-clobbered", c));
+            }
+        }
+        Ok(())
+    }
+
+    /// Validates a buffer the pool handed out for `size` bytes on pool/class `p` (None: the size
+    /// has no class) and enters it into the model.
+    fn accept(&mut self, p: Option<usize>, size: u32, addr: usize, len: Option<usize>, arena_before: usize) -> Result<u32, Fail> {
+        let mut c = self.ctx();
+        c["request"] = json!({"size": size, "pool": p});
+        c["returned"] = json!({"addr_in_arena": addr.wrapping_sub(self.arena().verif_state().0), "len": len});
+        let predicted = p.and_then(|p| self.models[p].predict().map(|i| (p, i)));
+        if let Some(len) = len
+            && len < size as usize
+        {
+            return Err(fail("pool|short-buffer", c));
+        }
+        // overlap with anything live, whatever the model predicted
+        let my_len = len.unwrap_or(size as usize).max(1);
+        let below = self.by_addr.range(..=addr).next_back().map(|(_, h)| *h);
+        let above = self.by_addr.range(addr + 1..).next().map(|(_, h)| *h);
+        for oh in [below, above].into_iter().flatten() {
+            let b = &self.bufs[&oh];
+            if addr < b.addr + b.len.max(1) && b.addr < addr + my_len {
+                c["other"] = json!({"handle": b.h, "pool": b.pool, "slot": b.slot});
+                return Err(fail("pool|live-buffers-overlap", c));
+            }
+        }
+        let (abase, _, _, aoff) = self.arena().verif_state();
+        let h = self.next_h;
+        match predicted {
+            Some((p, idx)) => {
+                let m = &self.models[p];
+                let want = m.base + idx as usize * m.ss as usize;
+                c["predicted"] = json!({"pool": p, "slot": idx, "from": if m.free.is_empty() { "virgin" } else { "free list" }});
+                if !m.contains(addr) {
+                    // in another class, or fallback although a slot was available
+                    if let Some(q) = self.models.iter().position(|o| o.contains(addr)) {
+                        c["landed_in_pool"] = json!(q);
+                        return Err(fail("pool|wrong-class", c));
+                    }
+                    return Err(fail("pool|fallback-although-slot-available", c));
+                }
+                let off = addr - m.base;
+                if off % m.ss as usize != 0 {
+                    return Err(fail("pool|slot-misaligned", c));
+                }
+                let got_idx = (off / m.ss as usize) as u32;
+                if m.live.contains_key(&got_idx) {
+                    return Err(fail("pool|slot-handed-out-twice", c));
+                }
+                if let Some(len) = len
+                    && len != m.ss as usize
+                {
+                    return Err(fail("pool|slot-length", c));
+                }
+                if got_idx >= m.bump && idx != got_idx {
+                    return Err(fail("pool|virgin-order", c));
+                }
+                if addr != want {
+                    return Err(fail("pool|reuse-order", c));
+                }
+                if aoff != arena_before {
+                    return Err(fail("pool|pooled-alloc-moved-arena", c));
+                }
+                let ss = m.ss as usize;
+                let m = &mut self.models[p];
+                if m.free.pop().is_some() {
+                    if m.exhausted && m.released_after_exhaustion {
+                        m.refilled = true;
+                    }
+                    *self.stats.entry("alloc.from_free_list").or_insert(0) += 1;
+                } else {
+                    m.bump += 1;
+                    *self.stats.entry("alloc.virgin").or_insert(0) += 1;
+                }
+                m.live.insert(idx, h);
+                m.alloc_order.push(h);
+                self.bufs.insert(h, Buf { h, addr, len: ss, size, pool: Some(p), slot: idx, tab: table(h) });
+                self.live_pool[p].insert(h);
+                if self.models[p].refilled {
+                    self.flags.refilled = true;
+                }
+            }
+            None => {
+                // arena fallback: class exhausted, or no class for this size
+                if let Some(p) = p {
+                    let m = &mut self.models[p];
+                    if !m.exhausted {
+                        m.exhausted = true;
+                        *self.stats.entry("exhaustion.events").or_insert(0) += 1;
+                    }
+                    self.flags.exhausted = true;
+                    self.stat("alloc.fallback.class_exhausted");
+                } else {
+                    self.stat("alloc.fallback.oversize");
+                }
+                if let Some(q) = self.models.iter().position(|o| o.contains(addr) || (size > 0 && o.contains(addr + size as usize - 1))) {
+                    c["landed_in_pool"] = json!(q);
+                    return Err(fail("pool|fallback-inside-pool-block", c));
+                }
+                // fresh bump memory: exactly the bytes above the arena's previous offset, so it
+                // can be neither a recycled fallback buffer nor pool bookkeeping
+                if addr != abase + arena_before || aoff != arena_before + size as usize {
+                    c["arena_offset"] = json!({"before": arena_before, "after": aoff});
+                    return Err(fail("pool|fallback-not-fresh-arena-memory", c));
+                }
+                for &(a, l) in &self.dead_fallback {
+                    if addr < a + l && a < addr + my_len {
+                        return Err(fail("pool|fallback-recycled", c));
+                    }
+                }
+                if self.real_contains(addr) {
+                    return Err(fail("pool|contains-wrong", c));
+                }
+                let l = len.unwrap_or(size as usize);
+                self.fallback_bytes += l;
+                self.bufs.insert(h, Buf { h, addr, len: l, size, pool: None, slot: 0, tab: table(h) });
+            }
+        }
+        self.next_h += 1;
+        self.by_addr.insert(addr, h);
+        self.live_all.insert(h);
+        let b = &self.bufs[&h];
+        unsafe { fill(b.addr as *mut u8, 0, b.len, &b.tab) };
+        Ok(h)
+    }
+
+    fn do_alloc(&mut self, p: usize, size: u32) -> Result<(), Fail> {
+        let before = self.arena().verif_state().3;
+        match self.pools.as_ref().expect("pools") {
+            Pools::Set(set) => {
+                if size as usize > 256 && self.fallback_bytes + size as usize > FALLBACK_BUDGET {
+                    self.stat("skipped.inapplicable");
+                    return Ok(());
+                }
+                let r = set.alloc(size);
+                let addr = r.cast::<u8>().as_ptr() as usize;
+                self.size_stat(size);
+                self.accept(spec_class(size), size, addr, Some(r.len()), before)?;
+            }
+            Pools::Small(v) => {
+                if p >= v.len() {
+                    self.stat("skipped.inapplicable");
+                    return Ok(());
+                }
+                let r = v[p].alloc();
+                match (self.models[p].predict(), r) {
+                    (None, None) => {
+                        let m = &mut self.models[p];
+                        if !m.exhausted {
+                            m.exhausted = true;
+                            self.stat("exhaustion.events");
+                        }
+                        self.flags.exhausted = true;
+                        self.stat("alloc.none_when_exhausted");
+                        if self.arena().verif_state().3 != before {
+                            return Err(fail("pool|pooled-alloc-moved-arena", self.ctx()));
+                        }
+                    }
+                    (Some(idx), None) => {
+                        let mut c = self.ctx();
+                        c["pool"] = json!(p);
+                        c["predicted_slot"] = json!(idx);
+                        return Err(fail("pool|none-although-slot-available", c));
+                    }
+                    (None, Some(r)) => {
+                        let mut c = self.ctx();
+                        c["pool"] = json!(p);
+                        c["returned_offset_in_block"] = json!((r.cast::<u8>().as_ptr() as usize).wrapping_sub(self.models[p].base));
+                        let off = (r.cast::<u8>().as_ptr() as usize).wrapping_sub(self.models[p].base);
+                        let idx = (off / self.models[p].ss as usize) as u32;
+                        if self.models[p].live.contains_key(&idx) {
+                            return Err(fail("pool|slot-handed-out-twice", c));
+                        }
+                        return Err(fail("pool|slot-from-exhausted-pool", c));
+                    }
+                    (Some(_), Some(r)) => {
+                        let ss = self.models[p].ss;
+                        self.accept(Some(p), ss, r.cast::<u8>().as_ptr() as usize, Some(r.len()), before)?;
+                    }
+                }
+            }
+        }
+        self.stat("op.alloc");
+        Ok(())
+    }
+
+    fn size_stat(&mut self, size: u32) {
+        let k = match size {
+            0 => "size.0",
+            1 => "size.1",
+            8 => "size.8",
+            9 => "size.9",
+            128 => "size.128",
+            129 => "size.129",
+            160 => "size.160",
+            161 => "size.161",
+            256 => "size.256",
+            257 => "size.257",
+            300 => "size.300",
+            70000 => "size.70000",
+            _ => "size.other",
+        };
+        self.stat(k);
+    }
+
+    fn do_alloc_str(&mut self, key: u64, n: u32) -> Result<(), Fail> {
+        let before = self.arena().verif_state().3;
+        let Some(Pools::Set(set)) = self.pools.as_ref() else {
+            self.stat("skipped.inapplicable");
+            return Ok(());
+        };
+        if n as usize > 256 && self.fallback_bytes + n as usize > FALLBACK_BUDGET {
+            self.stat("skipped.inapplicable");
+            return Ok(());
+        }
+        let text = gen_text(key, n as usize);
+        let s: ArenaString<'static> = set.alloc_str(&text);
+        let addr = s.as_bytes().as_ptr() as usize;
+        let ok = s.as_str() == text && s.len() == text.len() && s.capacity() == text.len();
+        // the string's destructor hands the buffer to the arena's no-op deallocate
+        std::mem::forget(s);
+        self.stat("op.alloc_str");
+        self.size_stat(n);
+        if !ok {
+            let mut c = self.ctx();
+            c["text_len"] = json!(n);
+            return Err(fail("pool|alloc_str-content", c));
+        }
+        self.accept(spec_class(n), n, addr, None, before)?;
+        Ok(())
+    }
+
+    fn do_free(&mut self, h: u32) -> Result<(), Fail> {
+        let Some(b) = self.bufs.remove(&h) else {
+            self.stat("skipped.inapplicable");
+            return Ok(());
+        };
+        self.by_addr.remove(&b.addr);
+        self.live_all.remove(h);
+        if let Some(p) = b.pool {
+            self.live_pool[p].remove(h);
+        }
+        let before = self.arena().verif_state().3;
+        let ptr = NonNull::new(b.addr as *mut u8).expect("nonnull");
+        match self.pools.as_ref().expect("pools") {
+            Pools::Set(set) => unsafe { set.dealloc(ptr, b.size) },
+            Pools::Small(v) => unsafe { v[b.pool.expect("pooled")].dealloc(ptr) },
+        }
+        self.stat("op.dealloc");
+        match b.pool {
+            Some(p) => {
+                let m = &mut self.models[p];
+                m.live.remove(&b.slot);
+                m.free.push(b.slot);
+                if m.exhausted {
+                    m.released_after_exhaustion = true;
+                }
+                let newest = m.alloc_order.last().copied();
+                m.alloc_order.retain(|x| *x != h);
+                if newest != Some(h) {
+                    self.flags.non_lifo = true;
+                    self.stat("dealloc.non_lifo");
+                } else {
+                    self.stat("dealloc.lifo");
+                }
+            }
+            None => {
+                // no-op for the pool: no counter may move (check_all), the memory is never reused
+                self.dead_fallback.push((b.addr, b.len.max(1)));
+                self.stat("dealloc.fallback_noop");
+            }
+        }
+        if self.arena().verif_state().3 != before {
+            return Err(fail("pool|dealloc-moved-arena", self.ctx()));
+        }
+        Ok(())
+    }
+
+    fn do_probe(&mut self, key: u64) -> Result<(), Fail> {
+        let mut rng = Rng::new(key);
+        let mut addrs: Vec<(usize, &'static str)> = Vec::new();
+        let np = self.models.len();
+        for _ in 0..3 {
+            let m = &self.models[rng.usize(np)];
+            let slot = rng.usize(m.count as usize);
+            let s = m.base + slot * m.ss as usize;
+            addrs.push((s, "slot start"));
+            addrs.push((s + 1 + rng.usize(m.ss as usize - 1), "slot interior"));
+            addrs.push((s + m.ss as usize - 1, "slot last byte"));
+            addrs.push((m.base, "block first byte"));
+            addrs.push((m.base + m.total() - 1, "block last byte"));
+            addrs.push((m.base + m.total(), "one past the last slot (free-list storage)"));
+            addrs.push((m.base + m.total() + rng.usize(4 * m.count as usize), "free-list storage"));
+            addrs.push((m.base + m.total() + 4 * m.count as usize - 1, "free-list storage last byte"));
+            addrs.push((m.base - 1, "one before the block"));
+        }
+        for b in self.bufs.values().filter(|b| b.pool.is_none()).take(4) {
+            addrs.push((b.addr, "fallback buffer"));
+            addrs.push((b.addr + b.len.saturating_sub(1), "fallback buffer last byte"));
+        }
+        for &(a, l) in self.arena_blocks.iter().rev().take(3) {
+            addrs.push((a, "unrelated arena block"));
+            addrs.push((a + l - 1, "unrelated arena block last byte"));
+        }
+        let (abase, acap, _, aoff) = self.arena().verif_state();
+        addrs.push((abase, "arena base"));
+        addrs.push((abase + aoff, "arena watermark"));
+        addrs.push((abase + acap - 1, "arena last byte"));
+        let local = 0u64;
+        addrs.push((std::ptr::from_ref(&local) as usize, "stack"));
+        addrs.push((self.heap_probe.as_ptr() as usize, "heap"));
+        addrs.push((8, "near null"));
+        addrs.push((usize::MAX, "usize::MAX"));
+        for (addr, what) in addrs {
+            let want = self.models.iter().any(|m| m.contains(addr));
+            let got = self.real_contains(addr);
+            *self.stats.entry(if want { "contains.expected_true" } else { "contains.expected_false" }).or_insert(0) += 1;
+            if want != got {
+                let mut c = self.ctx();
+                c["probe"] = json!({"kind": what, "addr_minus_arena_base": addr.wrapping_sub(abase), "expected": want, "got": got});
+                return Err(fail("pool|contains-wrong", c));
+            }
+        }
+        if let Some(Pools::Small(v)) = self.pools.as_ref() {
+            // per-pool ownership: a slot of pool i is not owned by pool j
+            for (i, m) in self.models.iter().enumerate() {
+                for (j, p) in v.iter().enumerate() {
+                    let a = m.base + rng.usize(m.total());
+                    if p.contains(a as *const u8) != (i == j) {
+                        let mut c = self.ctx();
+                        c["probe"] = json!({"address_in_pool": i, "asked_pool": j});
+                        return Err(fail("pool|contains-wrong", c));
+                    }
+                }
+            }
+        }
+        self.stat("op.probe_contains");
+        Ok(())
+    }
+
+    fn live_of(&self, p: i32) -> &[u32] {
+        if p < 0 { &self.live_all.v } else { self.live_pool.get(p as usize).map_or(&[][..], |l| &l.v) }
+    }
+
+    fn apply(&mut self, op: &Op) -> Result<(), Fail> {
+        self.opno += 1;
+        self.inner = 0;
+        match *op {
+            Op::Alloc { p, size } => {
+                self.last_op = "alloc";
+                self.do_alloc(p, size)?;
+                self.check_all()
+            }
+            Op::AllocStr { key, n } => {
+                self.last_op = "alloc_str";
+                self.do_alloc_str(key, n)?;
+                self.check_all()
+            }
+            Op::Free { h } => {
+                self.last_op = "dealloc";
+                self.do_free(h)?;
+                self.check_all()
+            }
+            Op::BurstAlloc { p, size, n } => {
+                self.last_op = "alloc";
+                self.stat("op.burst_alloc");
+                for i in 0..n {
+                    self.inner = i as usize;
+                    self.do_alloc(p, size)?;
+                    self.check_all()?;
+                }
+                Ok(())
+            }
+            Op::BurstFree { p, n, key } => {
+                self.last_op = "dealloc";
+                self.stat("op.burst_dealloc");
+                let mut rng = Rng::new(key);
+                for i in 0..n {
+                    self.inner = i as usize;
+                    let live = self.live_of(p);
+                    if live.is_empty() {
+                        break;
+                    }
+                    let h = live[rng.usize(live.len())];
+                    self.do_free(h)?;
+                    self.check_all()?;
+                }
+                Ok(())
+            }
+            Op::Probe { key } => {
+                self.last_op = "probe_contains";
+                self.do_probe(key)
+            }
+            Op::ArenaAlloc { size } => {
+                self.last_op = "arena_alloc";
+                if self.fallback_bytes + size as usize > FALLBACK_BUDGET || size == 0 {
+                    self.stat("skipped.inapplicable");
+                    return Ok(());
+                }
+                if !self.is_set() && self.arena().verif_state().3 + size as usize + 4096 > SMALL_ARENA_CAP {
+                    self.stat("skipped.inapplicable");
+                    return Ok(());
+                }
+                self.fallback_bytes += size as usize;
+                let s = self.arena().alloc_uninit_slice::<u8>(size as usize);
+                let a = s.as_ptr() as usize;
+                self.arena_blocks.push((a, size as usize));
+                self.stat("op.arena_alloc");
+                self.check_all()
+            }
+        }
+    }
+
+    /// End of history: everything is released in handle order, every class must be back to
+    /// live = 0 with free + virgin = capacity.
+    fn finish(&mut self) -> Result<(), Fail> {
+        self.opno += 1;
+        self.last_op = "dealloc";
+        let all: Vec<u32> = self.bufs.keys().copied().collect();
+        for (i, h) in all.into_iter().enumerate() {
+            self.inner = i;
+            self.do_free(h)?;
+        }
+        self.check_all()?;
+        for (i, _) in self.models.iter().enumerate() {
+            let st = self.state(i);
+            if st.0 != 0 || st.1 + (st.4 - st.2) != st.4 {
+                let mut c = self.ctx();
+                c["pool"] = json!(i);
+                c["counters"] = json!({"live": st.0, "free": st.1, "bump": st.2, "slot_count": st.4});
+                return Err(fail("pool|conservation", c));
+            }
+        }
+        Ok(())
+    }
+}
+
+impl Drop for World {
+    fn drop(&mut self) {
+        drop(self.pools.take());
+        drop(self.arena.take());
+    }
+}
+
+// ---------------------------------------------------------------------------
+// Generator
+// ---------------------------------------------------------------------------
+
+const BIASED: [u32; 12] = [0, 1, 8, 9, 128, 129, 160, 161, 256, 257, 300, 70000];
+
+fn gen_mode(rng: &mut Rng) -> Mode {
+    if rng.chance(4, 10) {
+        Mode::Set
+    } else {
+        let n = 1 + rng.usize(3);
+        Mode::Small((0..n).map(|_| (8 * (1 + rng.below(32) as u32), if rng.chance(1, 2) { 2 + rng.below(7) as u32 } else { 2 + rng.below(63) as u32 })).collect())
+    }
+}
+
+struct GenState {
+    /// Set mode: a class the history is going to exhaust (burst), and the phase it is in.
+    target_class: Option<usize>,
+    phase: u8,
+}
+
+fn set_size_for_class(rng: &mut Rng, c: usize) -> u32 {
+    let hi = spec_slot_size(c);
+    let lo = if c == 0 { 0 } else { spec_slot_size(c - 1) + 1 };
+    match rng.below(3) {
+        0 => hi,
+        1 => lo,
+        _ => lo + rng.below(u64::from(hi - lo + 1)) as u32,
+    }
+}
+
+fn next_op(rng: &mut Rng, w: &World, g: &mut GenState, small: bool) -> Op {
+    let live: &[u32] = &w.live_all.v;
+    if w.is_set() {
+        if let Some(c) = g.target_class {
+            // scripted part of the history: exhaust, release out of order, refill
+            match g.phase {
+                0 if w.opno >= 5 => {
+                    g.phase = 1;
+                    let m = &w.models[c];
+                    let remaining = m.count - m.bump + m.free.len() as u32;
+                    return Op::BurstAlloc { p: 0, size: set_size_for_class(rng, c), n: remaining + 1 + rng.below(6) as u32 };
+                }
+                1 => {
+                    g.phase = 2;
+                    return Op::BurstFree { p: c as i32, n: 3 + rng.below(if small { 20 } else { 200 }) as u32, key: rng.next_u64() >> 11 };
+                }
+                2 => {
+                    g.phase = 3;
+                    let m = &w.models[c];
+                    return Op::BurstAlloc { p: 0, size: set_size_for_class(rng, c), n: m.free.len() as u32 + rng.below(4) as u32 };
+                }
+                _ => {}
+            }
+        }
+        match rng.below(100) {
+            0..=39 => {
+                let size = if rng.chance(55, 100) { *rng.pick(&BIASED) } else { rng.below(301) as u32 };
+                Op::Alloc { p: 0, size }
+            }
+            40..=49 => {
+                let n = if rng.chance(55, 100) { *rng.pick(&BIASED[..11]) } else { rng.below(301) as u32 };
+                Op::AllocStr { key: rng.next_u64() >> 11, n }
+            }
+            50..=81 if !live.is_empty() => Op::Free { h: live[rng.usize(live.len())] },
+            82..=84 => Op::BurstFree { p: -1, n: 1 + rng.below(30) as u32, key: rng.next_u64() >> 11 },
+            85..=86 => Op::ArenaAlloc { size: 1 + rng.below(5000) as u32 },
+            87..=88 => Op::BurstAlloc { p: 0, size: rng.below(257) as u32, n: 2 + rng.below(40) as u32 },
+            _ => Op::Probe { key: rng.next_u64() >> 11 },
+        }
+    } else {
+        let np = w.models.len();
+        let p = rng.usize(np);
+        let total_live = live.len();
+        let cap: usize = w.models.iter().map(|m| m.count as usize).sum();
+        // drift between mostly-full and mostly-empty so that exhaustion and refill alternate
+        let alloc_w = if total_live * 10 < cap * 3 { 60 } else if total_live * 10 > cap * 8 { 30 } else { 45 };
+        match rng.below(100) {
+            x if x < alloc_w => Op::Alloc { p, size: 0 },
+            x if x < 80 && !live.is_empty() => Op::Free { h: live[rng.usize(live.len())] },
+            80..=83 => Op::BurstAlloc { p, size: 0, n: 1 + rng.below(u64::from(w.models[p].count) + 3) as u32 },
+            84..=87 => Op::BurstFree { p: if rng.chance(1, 2) { p as i32 } else { -1 }, n: 1 + rng.below(70) as u32, key: rng.next_u64() >> 11 },
+            88..=89 => Op::ArenaAlloc { size: 1 + rng.below(300) as u32 },
+            _ => Op::Probe { key: rng.next_u64() >> 11 },
+        }
+    }
+}
+
+// ---------------------------------------------------------------------------
+// Driver
+// ---------------------------------------------------------------------------
+
+enum Source<'a> {
+    Random { rng: Rng, left: usize, g: GenState, small: bool },
+    Replay { ops: &'a [Op], pos: usize },
+}
+
+type Run = (Vec<Op>, Option<Fail>, BTreeMap<&'static str, u64>, Flags);
+
+fn run_history(mode: &Mode, mut src: Source<'_>) -> Run {
+    let mut executed = Vec::new();
+    let c0 = verif::counters();
+    let mut w = match World::new(mode) {
+        Ok(w) => w,
+        Err(f) => return (executed, Some(f), BTreeMap::new(), Flags::default()),
+    };
+    let mut failure = None;
+    loop {
+        let op = match &mut src {
+            Source::Random { rng, left, g, small } => {
+                if *left == 0 {
+                    None
+                } else {
+                    *left -= 1;
+                    Some(next_op(rng, &w, g, *small))
+                }
+            }
+            Source::Replay { ops, pos } => {
+                let o = ops.get(*pos).cloned();
+                *pos += 1;
+                o
+            }
+        };
+        let Some(op) = op else { break };
+        executed.push(op.clone());
+        if let Err(f) = w.apply(&op) {
+            failure = Some(f);
+            break;
+        }
+    }
+    if failure.is_none()
+        && let Err(f) = w.finish()
+    {
+        failure = Some(f);
+    }
+    let now = verif::counters();
+    for (i, name) in verif::COUNTER_NAMES.iter().enumerate() {
+        let tag = match *name {
+            "pool_return" => "hook.pool_return",
+            "pool_alloc_virgin" => "hook.pool_alloc_virgin",
+            "pool_alloc_reuse" => "hook.pool_alloc_reuse",
+            "pool_fallback" => "hook.pool_fallback",
+            _ => continue,
+        };
+        let d = now[i].wrapping_sub(c0[i]);
+        if d > 0 {
+            *w.stats.entry(tag).or_insert(0) += d;
+        }
+    }
+    let stats = std::mem::take(&mut w.stats);
+    let flags = w.flags;
+    (executed, failure, stats, flags)
+}
+
+fn replay_json(mode: &Mode, seed: u64, idx: u64, ops: &[Op]) -> J {
+    json!({"engine": "pool", "seed": seed, "idx": idx, "mode": mode.to_json(), "ops": ops.iter().map(Op::to_json).collect::<Vec<_>>()})
+}
+
+fn case_setup(seed: u64, idx: u64, small: bool) -> (Mode, Rng, usize, GenState) {
+    let mut rng = Rng::new(util::case_seed(seed, "pool", idx));
+    let mode = if small { Mode::Small(vec![(8 * (1 + rng.below(8) as u32), 2 + rng.below(10) as u32)]) } else { gen_mode(&mut rng) };
+    let nops = if small { 80 + rng.usize(60) } else { 200 + rng.usize(1801) };
+    let target_class = if matches!(mode, Mode::Set) && rng.chance(6, 10) { Some(if rng.chance(8, 10) { 16 + rng.usize(4) } else { 8 + rng.usize(8) }) } else { None };
+    (mode, rng, nops, GenState { target_class, phase: 0 })
+}
 
 pub fn run(ctx: &mut Ctx) {
-    let _ = ctx;
-    eprintln!("engine pool not implemented");
-    std::process::exit(2);
+    if let Some(path) = ctx.opt("replay-file").map(str::to_string) {
+        replay_file(ctx, &path);
+        return;
+    }
+    let small = ctx.opt_u64("small", 0) != 0;
+    for idx in ctx.indices() {
+        ctx.out.begin(idx);
+        ctx.out.evaluations += 1;
+        let (mode, rng, nops, g) = case_setup(ctx.seed, idx, small);
+        let res = util::guarded(|| run_history(&mode, Source::Random { rng, left: nops, g, small }));
+        match res {
+            Err((msg, loc)) => {
+                let sig = format!("pool|panic|{}|{}", util::normalise_msg(&msg), util::panic_site(&loc));
+                ctx.out.fail(idx, &sig, json!({"panic": msg, "at": loc}), json!({"engine": "pool", "seed": ctx.seed, "idx": idx, "mode": mode.to_json(), "regenerate": true, "small": small}));
+            }
+            Ok((ops, failure, stats, flags)) => {
+                for (k, v) in &stats {
+                    ctx.out.tag_n(k, *v);
+                }
+                ctx.out.tag_n("ops.total", ops.len() as u64);
+                ctx.out.tag(if matches!(mode, Mode::Set) { "workload.pool_set_20_classes" } else { "workload.small_pools" });
+                if let Some(f) = failure {
+                    ctx.out.fail(idx, &f.sig, f.detail, replay_json(&mode, ctx.seed, idx, &ops));
+                    continue;
+                }
+                if flags.exhausted {
+                    ctx.out.tag("history.exhausts_a_class");
+                }
+                if flags.refilled {
+                    ctx.out.tag("history.refills_after_exhaustion");
+                }
+                if flags.non_lifo {
+                    ctx.out.tag("history.non_lifo_release");
+                }
+                if flags.exhausted && flags.refilled && flags.non_lifo {
+                    let text = serde_json::to_string(&replay_json(&mode, 0, 0, &ops)).unwrap_or_default();
+                    ctx.out.nontrivial(util::hash64(text.as_bytes()));
+                    ctx.out.sample(json!({
+                        "idx": idx,
+                        "workload": mode.to_json(),
+                        "operations": ops.len(),
+                        "first_operations": ops.iter().take(12).map(Op::to_json).collect::<Vec<_>>(),
+                    }));
+                }
+            }
+        }
+    }
+}
+
+fn replay_file(ctx: &mut Ctx, path: &str) {
+    let text = std::fs::read_to_string(path).expect("replay file");
+    let mut j: J = serde_json::from_str(&text).expect("replay json");
+    if j.get("replay").is_some() {
+        j = j["replay"].clone();
+    }
+    let idx = j["idx"].as_u64().unwrap_or(0);
+    ctx.out.begin(idx);
+    ctx.out.evaluations += 1;
+    let res = if j["regenerate"].as_bool().unwrap_or(false) || j.get("ops").is_none() {
+        let small = j["small"].as_bool().unwrap_or(false);
+        let (mode, rng, nops, g) = case_setup(j["seed"].as_u64().unwrap_or(ctx.seed), idx, small);
+        util::guarded(|| run_history(&mode, Source::Random { rng, left: nops, g, small }))
+    } else {
+        let mode = Mode::from_json(&j["mode"]).expect("mode");
+        let ops: Vec<Op> = j["ops"].as_array().map(|a| a.iter().filter_map(Op::from_json).collect()).unwrap_or_default();
+        util::guarded(|| run_history(&mode, Source::Replay { ops: &ops, pos: 0 }))
+    };
+    match res {
+        Err((msg, loc)) => {
+            eprintln!("REPLAY pool: panic `{msg}` at {loc}");
+            ctx.out.fail(idx, &format!("pool|panic|{}|{}", util::normalise_msg(&msg), util::panic_site(&loc)), json!({"panic": msg, "at": loc}), j.clone());
+        }
+        Ok((ops, None, _, _)) => eprintln!("REPLAY pool: {} operations, no violation", ops.len()),
+        Ok((ops, Some(f), _, _)) => {
+            eprintln!("REPLAY pool: VIOLATION after {} operations: {} {}", ops.len(), f.sig, f.detail);
+            ctx.out.fail(idx, &f.sig, f.detail, j.clone());
+        }
+    }
+    if ctx.out.failures > 0 {
+        ctx.out.finish();
+        std::process::exit(1);
+    }
 }
